@@ -939,6 +939,8 @@ def _read_flow_obs(path, prefix, c, dtr_cnfg=1, version="openQCD", obspos=0, sum
                     for j in range(ncs + 1):
                         for i in range(iobs):
                             t = fp.read(8 * tmax)
+                            if len(t) < 8 * tmax:
+                                raise Exception("Incomplete record for trajectory %d in %s" % (traj_list[-1], file))
                             if (i == obspos):  # determines the flow observable -> i=0 <-> Zeuthen flow
                                 Q.append(struct.unpack('d' * tmax, t))
 
